@@ -185,6 +185,9 @@ class SourceSys:
         if sib:
             self.kind = kind = kind[: -len("+sib")]
             self.siblings.append(self._sibling(aio, sw, ch))  # one that exists before ...
+        if kind in ("wavx", "wavx_eager"):
+            kind = "wav" if kind == "wavx" else "wav_eager"  # same model; only the file on disk differs
+            self.kind = kind
         if kind in ("wav_eager", "raw_eager", "fifo_eager"):
             # the in-memory loaders (large_file=False): whatever they return is modelled as a memory buffer
             if kind == "fifo_eager":
@@ -383,7 +386,10 @@ def work(task):
     data = content_big(n, sw, ch) if big else content(n, sw, ch)
     path = None
     base = kind.split("+")[0]
-    if base in ("raw", "wav", "raw_eager", "wav_eager"):
+    if base in ("wavx", "wavx_eager"):
+        path = os.path.join(common.scratch_dir(), "src_%d_%d_%d_%s_x.wav" % (n, sw, ch, base))
+        write_wav_chunky(path, data, SR, sw, ch)
+    elif base in ("raw", "wav", "raw_eager", "wav_eager"):
         path = os.path.join(common.scratch_dir(), "src_%d_%d_%d_%s.%s" % (n, sw, ch, base, base[:3]))
         if base.startswith("raw"):
             with open(path, "wb") as fp:
@@ -471,8 +477,25 @@ def position_tables(rep):
         src.close()
 
 
+def write_wav_chunky(path, data, rate, sw, ch):
+    """A valid RIFF/WAVE file as editors and recorders write them: a LIST chunk between 'fmt ' and 'data', the pad
+    byte after an odd-sized 'data' chunk, and further chunks (LIST, id3) after the audio."""
+    import struct
+
+    def chunk(cid, payload):
+        return cid + struct.pack("<I", len(payload)) + payload + (b"\0" if len(payload) % 2 else b"")
+
+    fmt = struct.pack("<HHIIHH", 1, ch, rate, rate * ch * sw, ch * sw, 8 * sw)
+    info = b"INFO" + chunk(b"ISFT", b"verif 1.0\0")
+    body = b"WAVE" + chunk(b"fmt ", fmt) + chunk(b"LIST", info) + chunk(b"data", data) + chunk(b"LIST", info) + chunk(b"id3 ", b"ID3\x03\0\0\0\0\0\x07title")
+    with open(path, "wb") as fp:
+        fp.write(b"RIFF" + struct.pack("<I", len(body)) + body)
+
+
 def _write(path, data, sw, ch, rate=SR):
-    if path.lower().endswith(".wav"):
+    if path.lower().endswith("x.wav"):
+        write_wav_chunky(path, data, rate, sw, ch)
+    elif path.lower().endswith(".wav"):
         with wave.open(path, "wb") as fp:
             fp.setframerate(rate)
             fp.setsampwidth(sw)
@@ -498,8 +521,8 @@ def loaders_large(rep, quick):
             period = content_big(4099, sw, ch)
             reps = n // 4099 + 1
             data = (period * reps)[: n * sw * ch]  # period 4099 is prime: no chunk size divides it
-            for ext in ("wav", "raw"):
-                path = os.path.join(d, "big_%d.%s" % (os.getpid(), ext))
+            for ext in ("wav", "raw", "x.wav"):
+                path = os.path.join(d, "big_%d%s%s" % (os.getpid(), "." if ext != "x.wav" else "_", ext))
                 _write(path, data, sw, ch)
                 for lazy in (False, True):
                     for how in ("all", "chunks"):
@@ -539,6 +562,89 @@ def loaders_large(rep, quick):
                                               ext, n, sw * ch, "lazy" if lazy else "in-memory", how, msg),
                                           {"kind": "loader_large"})
                 os.unlink(path)
+
+
+def fifo_trickle(data, chunks):
+    """A named pipe whose writer delivers `data` in the given piece sizes, each piece only after the reader has
+    drained the previous one (deterministic short reads for whoever reads the pipe without buffering).  Returns the path;
+    the writer starts when somebody opens the pipe for reading."""
+    import array
+    import fcntl
+    import termios
+    import threading
+    import time
+
+    fifo_trickle.n = getattr(fifo_trickle, "n", 0) + 1
+    path = os.path.join(common.scratch_dir(), "trickle_%d_%d.raw" % (os.getpid(), fifo_trickle.n))
+    os.mkfifo(path)
+
+    def feed():
+        try:
+            fd = os.open(path, os.O_WRONLY)
+        except OSError:
+            return
+        avail = array.array("i", [0])
+        pos = k = 0
+        try:
+            while pos < len(data):
+                n = max(1, chunks[k % len(chunks)])
+                k += 1
+                os.write(fd, data[pos : pos + n])
+                pos += n
+                deadline = time.time() + 1.0
+                while time.time() < deadline:
+                    fcntl.ioctl(fd, termios.FIONREAD, avail)
+                    if avail[0] == 0:
+                        break
+                    time.sleep(0.00005)
+        except OSError:
+            pass
+        finally:
+            os.close(fd)
+
+    threading.Thread(target=feed, daemon=True).start()
+    return path
+
+
+def fifo_lazy(rep):
+    """The lazy raw source on a named pipe whose data arrives in pieces that are not whole samples: every read still
+    hands out min(n, remaining) whole samples."""
+    aio = lib()["io"]
+    for (sw, ch) in FORMATS:
+        bps = sw * ch
+        for n in (0, 1, 5):
+            data = content(n, sw, ch)
+            for chunks in ((1,), (3,), (bps + 1, 1), (2 * bps - 1,)):
+                for sizes in ((1, 2, -1, 1), (None, 1), (2, 2, 2, 2)):
+                    rep.add("evaluations")
+                    rep.add("distinct_nontrivial", 1 if n else 0)
+                    path = fifo_trickle(data, chunks)
+                    msg = None
+                    try:
+                        src = aio.RawAudioSource(path, SR, sw, ch)
+                        src.open()
+                        cur = 0
+                        for size in sizes:
+                            got = src.read(size)
+                            rem = n - cur
+                            cnt = rem if (size is None or size < 0) else min(size, rem)
+                            want = data[cur * bps : (cur + cnt) * bps] if rem else None
+                            cur += cnt
+                            if got != want:
+                                msg = "read(%r) hands out %r, expected %r" % (size, got, want)
+                                break
+                        src.close()
+                    except Exception as exc:
+                        msg = "raised %r" % (exc,)
+                    finally:
+                        try:
+                            os.unlink(path)
+                        except OSError:
+                            pass
+                    if msg:
+                        rep.violation("fifo-lazy n=%d sw=%d ch=%d chunks=%r reads=%r" % (n, sw, ch, chunks, sizes),
+                                      "lazy raw source on a named pipe delivering %r-byte pieces (%d-byte samples): %s" % (chunks, bps, msg), {"kind": "fifolazy"})
+                        return
 
 
 def fifo_loads(rep):
@@ -633,7 +739,7 @@ def run(prop, tier):
                     d, unpruned = (2, 4) if quick else (3, 6)
                 tasks.append((kind, n, sw, ch, d, unpruned, tier))
     # the in-memory loaders, a named pipe given as a raw file, and sources living next to other sources
-    for kind in ("wav_eager", "raw_eager", "buffer+sib", "wav+sib", "raw+sib"):
+    for kind in ("wav_eager", "raw_eager", "buffer+sib", "wav+sib", "raw+sib", "wavx", "wavx_eager"):
         for (sw, ch) in FORMATS:
             for n in range(0, 7):
                 tasks.append((kind, n, sw, ch, 1 if quick else 2, 2 if quick else 3, tier))
@@ -665,6 +771,7 @@ def run(prop, tier):
     position_tables(rep)
     loaders_large(rep, quick)
     fifo_loads(rep)
+    fifo_lazy(rep)
     rewritten_files(rep)
     for part in common.pmap(work, tasks):
         rep.merge(part)
@@ -675,6 +782,10 @@ def run(prop, tier):
 
 def replay(case):
     lib()
+    if case.get("kind") == "fifolazy":
+        rep = common.Report("C11", "quick", "")
+        fifo_lazy(rep)
+        return rep.violations[0][1] if rep.violations else None
     if case.get("kind") == "fifo":
         rep = common.Report("C11", "quick", "")
         fifo_loads(rep)
@@ -691,7 +802,10 @@ def replay(case):
     data = content_big(n, sw, ch) if n > 1000 else content(n, sw, ch)
     path = None
     base = kind.split("+")[0]
-    if base in ("raw", "wav", "raw_eager", "wav_eager"):
+    if base in ("wavx", "wavx_eager"):
+        path = os.path.join(common.scratch_dir(), "replay_x.wav")
+        write_wav_chunky(path, data, SR, sw, ch)
+    elif base in ("raw", "wav", "raw_eager", "wav_eager"):
         path = os.path.join(common.scratch_dir(), "replay.%s" % base[:3])
         if base.startswith("raw"):
             open(path, "wb").write(data)
